@@ -43,6 +43,29 @@ base_dimensions = [
     logarithmic,
 ]
 
+
+def _intern_dimensions(dims):
+    """Return *dims* expressed with this module's base-dimension symbols.
+
+    Pickling and copying a sympy Symbol yield a symbol that is equal but not
+    identical to the one defined above, while unyt compares dimensions by
+    identity (``is angle``, ``is temperature``, ``is logarithmic``).
+    """
+    free = getattr(dims, "free_symbols", None)
+    if not free:
+        return dims
+    swap = {}
+    for sym in free:
+        for base_dim in base_dimensions:
+            if base_dim is not sym and base_dim == sym:
+                swap[sym] = base_dim
+    if not swap:
+        return dims
+    if dims in swap:
+        return swap[dims]
+    return dims.xreplace(swap)
+
+
 #
 # Derived dimensions
 #
